@@ -306,11 +306,8 @@ Lemma lidx_1 {A} (x y : A) l : lidx (x :: y :: l) 1 = Ok y. Proof. reflexivity. 
 
 Lemma alpine_version_skel_returns matched : Returns (alpine_version_skel matched).
 Proof. destruct matched; vm_compute; split; discriminate. Qed.
-Lemma fetch_offline_skel_returns n : Returns (fetch_offline_skel n).
-Proof.
-  unfold fetch_offline_skel. destruct n as [|n]; [apply returns_err|]. cbn [Nat.eqb]. rewrite vidx_lt by lia. cbn [rbind].
-  destruct (1 <=? S n)%nat eqn:E; [apply returns_ok|]. apply Nat.leb_gt in E. lia.
-Qed.
+Lemma fetch_offline_skel_returns names : Returns (fetch_offline_skel names).
+Proof. unfold fetch_offline_skel. destruct (fold_left _ names None); [apply returns_ok|apply returns_err]. Qed.
 Lemma etag_skel_returns present vals : Returns (etag_skel present vals).
 Proof.
   unfold etag_skel. destruct present; [|apply returns_ok]. cbn [negb]. destruct vals as [|v vals]; [apply returns_ok|].
